@@ -101,7 +101,7 @@ CLAIMED["C20"] = ("Whole-program frame analysis (structural obligations on go/ss
 
 CLAIMED["C13"] = ("Proof (deductive, all arguments) of the value graph built by the 8 NGAP builders on the emulator's path (NGSetupRequest, InitialUEMessage, UplinkNASTransport, InitialContextSetupResponse x2, PDUSessionResourceSetupResponse, PDUSessionResourceReleaseResponse, UEContextReleaseComplete): "
   "message class, procedure code, criticality, the IE ids and criticalities of TS 38.413 clause 9.2 (constants transcribed in /verif/spec/ngap38413, not read from the library), each caller-supplied identifier, NAS-PDU and PDU session id at its place, every PLMN field = the PLMN announced at NG Setup; out-of-range INTEGERs are refused by appendInteger (proved, C03). "
-  "BOUNDED stand-in (labelled bounded): the octets returned by the 8 build-and-encode wrappers, parsed by an independent TS 38.413/X.691 walker, carry exactly those values over boundary identifiers and NAS lengths, and identifiers just outside their ranges are refused.",
+  "BOUNDED stand-in (labelled bounded): the octets returned by the 8 build-and-encode wrappers of the emulator's procedures, parsed by an independent TS 38.413/X.691 walker, carry exactly those values over boundary identifiers and NAS lengths, and identifiers just outside their ranges are refused; for the 6 other wrappers of tglib (handover, path switch, paging, release request) the walker finds the message class, the procedure code and the caller's two UE identifiers.",
   "NOT covered: the other 44 builders of the library (not on the emulator's path); the encoding step itself is proved only at primitive level (C03), the traversal being reflection-driven. Trusted: govc, go/ssa, SMT solvers, the transcribed tables, aper.Marshal* assumed to return octets or an error.",
   "DESIGN.md §4 C13")
 
